@@ -222,12 +222,17 @@ def loops_to_comprehensions(tree):
     return n[0]
 
 
+NEVER_NONE = (ast.BinOp, ast.JoinedStr, ast.Tuple, ast.List, ast.Dict, ast.Set, ast.ListComp, ast.DictComp, ast.SetComp, ast.GeneratorExp, ast.Compare, ast.BoolOp) if False else \
+    (ast.BinOp, ast.JoinedStr, ast.Tuple, ast.List, ast.Dict, ast.Set, ast.ListComp, ast.DictComp, ast.SetComp, ast.GeneratorExp)
+
+
 def fold_constant_conditions(tree):
     """N11: `a if True else b` -> `a`;  `if True: A else: B` -> A  (constant tests, typically left by inlining a helper called with a literal flag)"""
     n = [0]
     if not any((isinstance(x, (ast.IfExp, ast.If)) and isinstance(x.test, ast.Constant)) or
                (isinstance(x, ast.UnaryOp) and isinstance(x.op, ast.Not) and isinstance(x.operand, ast.Constant)) or
-               (isinstance(x, ast.Compare) and isinstance(x.left, ast.Constant) and len(x.ops) == 1 and isinstance(x.comparators[0], ast.Constant)) for x in ast.walk(tree)):
+               (isinstance(x, ast.Compare) and isinstance(x.left, ast.Constant) and len(x.ops) == 1 and isinstance(x.comparators[0], ast.Constant)) or
+               (isinstance(x, ast.Compare) and len(x.ops) == 1 and isinstance(x.ops[0], (ast.Is, ast.IsNot)) and isinstance(x.left, NEVER_NONE)) for x in ast.walk(tree)):
         return 0
 
     class E(ast.NodeTransformer):
@@ -246,6 +251,11 @@ def fold_constant_conditions(tree):
 
         def visit_Compare(self, node):
             self.generic_visit(node)
+            # `(a + b) is None`, `f'..' is None`, `[..] is not None` (an expression substituted for a parameter that defaults to None)
+            if len(node.ops) == 1 and isinstance(node.ops[0], (ast.Is, ast.IsNot)) and isinstance(node.left, NEVER_NONE) and isinstance(node.comparators[0], ast.Constant) \
+                    and node.comparators[0].value is None:
+                n[0] += 1
+                return ast.copy_location(ast.Constant(value=isinstance(node.ops[0], ast.IsNot)), node)
             # `'overflow' is not None`, `None is not None` (a literal substituted for a parameter)
             if len(node.ops) == 1 and isinstance(node.left, ast.Constant) and isinstance(node.comparators[0], ast.Constant):
                 a, b, op = node.left.value, node.comparators[0].value, node.ops[0]
